@@ -186,6 +186,13 @@ class RngModel:
 
     def normal(self, loc=0.0, scale=1.0, size=None):
         c = ctx()
+        if size is None and (isinstance(loc, Tensor) or isinstance(scale, Tensor)):
+            shape = (loc if isinstance(loc, Tensor) else scale).shape
+            stem = str(c.fresh("xiv", "Int"))
+            f = z3.Function(stem, *([z3.IntSort()] * len(shape)), z3.RealSort())
+            xi = Tensor(shape, lambda *idx: Sym(f(*[S.z(i) for i in idx])))
+            c.trace.append(("draw", "normal_vec", xi, loc, scale))
+            return Tensor.broadcast(Tensor.broadcast(xi, scale, S.mul), loc, S.add)
         if size is None:
             xi = Sym(c.fresh("xi", "Real"))
             c.trace.append(("draw", "normal", xi, loc, scale))
@@ -208,7 +215,7 @@ class RngModel:
 
     def uniform(self, low=0.0, high=1.0, size=None):
         c = ctx()
-        if size is None:
+        if size is None and not isinstance(low, Tensor) and not isinstance(high, Tensor):
             u = c.fresh("uu", "Real")
             c.defs.append(z3.And(u >= 0, u < 1))
             c.trace.append(("draw", "uniform", Sym(u), low, high))
